@@ -27,6 +27,8 @@ type Env struct {
 	inOld    bool
 	bound    map[string]Val
 	gsuf     string // ghost-name suffix (cache context) for evaluating a callee's contract
+	fbPos    token.Pos         // second scope to resolve names in (the caller's, at the call of an inlined helper)
+	fbPkg    *packages.Package // ... and its package
 }
 
 func (fc *FCtx) newEnv(st, old *State, pos token.Pos) *Env {
@@ -163,9 +165,40 @@ func (fc *FCtx) lookupName(name string, env *Env) (Val, bool) {
 			}
 		}
 	}
+	if env.fbPos.IsValid() && env.fbPkg != nil {
+		if sc := env.fbPkg.Types.Scope().Innermost(env.fbPos); sc != nil {
+			if _, obj := sc.LookupParent(name, env.fbPos); obj != nil {
+				if v, ok := st.vars[obj]; ok {
+					return v, true
+				}
+			}
+		}
+	}
 	if obj, ok := fc.renames[name]; ok {
 		if v, ok := st.vars[obj]; ok {
 			return v, true
+		}
+	}
+	if fc.changed && len(fc.frames) == 1 && env.scopePos.IsValid() && !env.inOld {
+		// a local of the ledgered body that now lives in a helper the function calls (extract-function refactoring): the
+		// helper was inlined, its locals are still in the state. Taken only when exactly one such variable has the name.
+		// (A wrong pick cannot make a proof clause pass that should fail: asserts and invariants are obligations.)
+		var hit types.Object
+		n := 0
+		for o := range st.vars {
+			if o.Name() != name || o.Pkg() == nil {
+				continue
+			}
+			for key := range fc.inlined {
+				if fi := fc.E.funcs[key]; fi != nil && fi.Body() != nil && fi.Body().Pos() <= o.Pos() && o.Pos() <= fi.Body().End() && fi.Pkg.Types == o.Pkg() {
+					hit = o
+					n++
+					break
+				}
+			}
+		}
+		if n == 1 {
+			return st.vars[hit], true
 		}
 	}
 	if env.gsuf != "" {
